@@ -34,11 +34,36 @@ pub fn results(ev: &MainEvent) -> Result<String, String> {
         mix(a.wire_amplitude.to_bits());
         mix(a.pad_amplitude.to_bits());
     }
+    // the space point of every avalanche (drift-table look-up): part of what vertex() computes, made
+    // observable on its own so that events without a vertex show it too (seed C11-8: a look-up that
+    // remembered the last z region)
+    let mut hp: u64 = 0xcbf29ce484222325;
+    let mut npts = 0usize;
+    {
+        let mut mixp = |x: u64| {
+            for b in x.to_le_bytes() {
+                hp ^= b as u64;
+                hp = hp.wrapping_mul(0x100000001b3);
+            }
+        };
+        for a in &av {
+            match guarded(|| alpha_g_physics::SpacePoint::try_from(*a)) {
+                Err(m) => return Err(format!("SpacePoint::try_from panicked: {m}")),
+                Ok(Ok(p)) => {
+                    npts += 1;
+                    mixp(p.r.value.to_bits());
+                    mixp(p.phi.value.to_bits());
+                    mixp(p.z.value.to_bits());
+                }
+                Ok(Err(_)) => mixp(0xE44),
+            }
+        }
+    }
     let v = match vx {
         None => "none".to_string(),
         Some(c) => format!("{:016x},{:016x},{:016x}", c.x.value.to_bits(), c.y.value.to_bits(), c.z.value.to_bits()),
     };
-    Ok(format!("ts={ts} avalanches={}:{h:016x} vertex={v}", av.len()))
+    Ok(format!("ts={ts} avalanches={}:{h:016x} points={npts}:{hp:016x} vertex={v}", av.len()))
 }
 
 /// Build and reconstruct; `(canonical answer of the build, oracle verdict, results)`.
